@@ -100,6 +100,9 @@ pub struct Cfg5 {
     /// server: the per-connection publish service is created only when gate (G_FACT, 0) opens (a slow service factory)
     #[serde(default)]
     pub hold_factory: bool,
+    /// combined server: time allowed for the protocol version to arrive, in seconds (Some(0) = no limit; None = library default 5 s)
+    #[serde(default)]
+    pub protocol_version_timeout: Option<u16>,
     pub connect: s5::Connect5,
     /// client role: CONNACK the scripted server answers with
     pub connack: s5::ConnAck5,
@@ -126,6 +129,7 @@ impl Default for Cfg5 {
             no_sub_ids: false,
             hs_with: None,
             hold_factory: false,
+            protocol_version_timeout: None,
             connect: s5::Connect5 { client_id: "cid".into(), clean_start: true, ..Default::default() },
             connack: s5::ConnAck5::default(),
         }
@@ -145,6 +149,9 @@ impl Cfg5 {
             .set_max_payload_buffer_size(self.max_payload_buffer)
             .set_handle_qos_after_disconnect(self.handle_qos_after_disconnect.map(conv::qos));
         m = m.set_connect_timeout(Seconds(self.connect_timeout));
+        if let Some(t) = self.protocol_version_timeout {
+            m = m.protocol_version_timeout(Seconds(t));
+        }
         let mut io = IoConfig::new().set_keepalive_timeout(Seconds::ZERO).set_disconnect_timeout(Seconds(1));
         if let Some((t, mx, rate)) = self.frame_read_rate {
             io = io.set_frame_read_rate(Seconds(t), Seconds(mx), rate);
